@@ -210,8 +210,20 @@ def run_job(job, tree, trace=False):
         return bool(m) and ".assigns." in r["name"] and not m.group(1).startswith("VG") and m.group(1) not in job_globals(tree)
     limits = [r for r in fails if tool_limit(r)]
     fails = [r for r in fails if not tool_limit(r)]
+    # dfcc artefact: inside a function verified with loop contracts, a loop WITHOUT contract in a callee makes dfcc report the
+    # callee's own locals as "not assignable".  When the callee is a function the loop baseline does not know (a helper that a
+    # change introduced), has no static locals and the loop is executed by unwinding (bound 70, unwinding assertions on), these
+    # reports are noise: the callee's locals are fresh per call, every other obligation is still checked on every path.
+    noise = [r for r in limits if new_function_local(r, tree)]
+    if noise and len(noise) == len(limits):
+        out["ignored"] = ["[%s] %s" % (r["name"], r["desc"]) for r in noise]
+        limits = []
     if limits and not fails:
         out["reason"] = "tool limit, not a violation: %s" % "; ".join("[%s] %s" % (r["name"], r["desc"]) for r in limits[:3])
+        # (A second route - deciding the same contract by complete unwinding instead of loop contracts - was tried and REMOVED:
+        #  without loop contracts CBMC reads a local union through one member after a write through another member with a
+        #  non-literal index as stale (tk.row[index / 4] = word; ... tk.lrow), which made the unchanged skinny128_set_tk2 fail
+        #  its postcondition: a false alarm.  Undecided stays undecided.)
         return out
     if not fails and any(r["status"] in ("UNKNOWN", "ERROR") for r in results):
         # (CBMC leaves properties UNKNOWN next to genuine failures; alone they mean undecided)
@@ -219,9 +231,75 @@ def run_job(job, tree, trace=False):
         return out
     out["fails"] = fails
     out["status"] = "fail" if fails else "ok"
+    if fails and limits:
+        # "local X is not assignable" INSIDE a contracted loop: the code now changes a variable the loop contract does not
+        # havoc, so the inductive step ran on a wrong abstraction - its failures (and successes) say nothing about the code.
+        # Such a job counts as a violation only if the native replayer exhibits a failing input on the real code.
+        out["frame_mismatch"] = "; ".join("[%s] %s" % (r["name"], r["desc"]) for r in limits[:3])
     if trace:
         out["trace"] = txt
     return out
+
+
+_fninfo_cache = {}
+
+
+def new_function_local(r, tree):
+    """True for dfcc's "Check that <local> is assignable" inside a function that has a loop but is absent from the loop baseline"""
+    if not re.match(r"Check that [A-Za-z_][A-Za-z_0-9]* is assignable$", r["desc"]) or ".assigns." not in r["name"]:
+        return False
+    fn = r["name"].split(".assigns.")[0]
+    ident = re.match(r"Check that ([A-Za-z_][A-Za-z_0-9]*) is assignable$", r["desc"]).group(1)
+    if ident in file_scope_names(tree, ("src", "examples", "arduino")):
+        return False     # an object with static storage duration: a write outside the frame is a genuine finding
+    if tree not in _fninfo_cache:
+        base = set()
+        bp = os.path.join(HERE, "contracts", "loop_baseline.json")
+        if os.path.exists(bp):
+            base = set(k.split("::")[1] for k in json.load(open(bp)))
+        cur, stat, lines = set(), set(), {}
+        for sub in ("src", "examples", "arduino"):
+            fp = os.path.join(tree, sub, "verif_loops.json")
+            if os.path.exists(fp):
+                d = json.load(open(fp))
+                stat |= set(d.get("__static_locals__", []))
+                cur |= set(k.split("::")[1] for k, v in d.items() if not k.startswith("__") and v)
+                for k, v in d.get("__loop_lines__", {}).items():
+                    lines.setdefault(k.split("::")[1], []).extend(v)
+        _fninfo_cache[tree] = (base, cur, stat, lines)
+    base, cur, stat, lines = _fninfo_cache[tree]
+    if fn in stat:
+        return False
+    if fn in cur and fn not in base:
+        return True
+    # a function the baseline knows: the report is noise only if its line lies inside loops that are ALL unknown to the baseline
+    # (ordinal > 100, i.e. added by the change) - a contract-less loop next to, not inside, the contracted ones
+    m = re.search(r"(\d+)", str(r.get("line", "")))
+    if not m:
+        return False
+    ln = int(m.group(1))
+    inside = [o for (o, a, b) in lines.get(fn, []) if b is not None and a <= ln <= b]
+    return bool(inside) and all(o > 100 for o in inside)
+
+
+_fs_cache = {}
+
+
+def file_scope_names(tree, dirs):
+    key = (tree, dirs)
+    if key not in _fs_cache:
+        names = set()
+        for d in dirs:
+            dd = os.path.join(tree, d)
+            if not os.path.isdir(dd):
+                continue
+            for f in os.listdir(dd):
+                if f.endswith((".c", ".h")):
+                    txt = open(os.path.join(dd, f), errors="replace").read()
+                    for m in re.finditer(r"^(?:static\s+|extern\s+)?(?:const\s+|volatile\s+)*[A-Za-z_][A-Za-z_0-9]*(?:\s+const)?\s+\**\s*([A-Za-z_][A-Za-z_0-9]*)\s*(?:\[[^;{]*\])*\s*(?:=|;)", txt, re.M):
+                        names.add(m.group(1))
+        _fs_cache[key] = names
+    return _fs_cache[key]
 
 
 _globals_cache = {}
@@ -348,6 +426,14 @@ def run_check(prop, jobs, tier, replay_fn=None, extra_assumptions=(), level_text
                     fh.write("\n(no native replayer registered for this job)\n")
                 tr = to.get("trace", "") or open(o["log"], errors="replace").read()
                 fh.write("\n--- verifier output (tail) ---\n%s\n" % tr[-20000:])
+            if o.get("frame_mismatch") and not found:
+                o["status"] = "undecided"
+                o["reason"] = ("the loop contract's frame does not fit the edited loop (%s): the failed inductive step is not evidence, and the "
+                               "native replay found no failing input" % o["frame_mismatch"])
+                undec.append((j, o))
+                done_jobs.discard(j.id)
+                os.replace(rp, rp[:-4] + ".undecided.txt")    # kept for inspection, not a violation record
+                continue
             print("VIOLATION property=%s replay=%s%s" % (prop, rp, "" if found else " no-failing-input-found"))
             code = 1
         for st in static_results:
@@ -401,7 +487,9 @@ def write_evidence(prop, tier, seed, sel, outs, wall, assumptions, level_text, u
     bounded = []
     for j, o in zip(sel, outs):
         # obligations matched by a listed known finding are reported separately, not counted as proof obligations
-        rs = [r for r in o.get("results", []) if "canary-reachable" not in r["desc"] and (j.id, r["name"]) not in known_obligations]
+        ign = set(o.get("ignored", []))
+        rs = [r for r in o.get("results", []) if "canary-reachable" not in r["desc"] and (j.id, r["name"]) not in known_obligations
+              and ("[%s] %s" % (r["name"], r["desc"])) not in ign]
         obligations += len(rs)
         discharged += len([r for r in rs if r["status"] == "SUCCESS"])
         for r in rs[:1] + [r for r in rs if "postcondition" in r["name"] or "loop_invariant" in r["name"]][:2]:
@@ -411,7 +499,8 @@ def write_evidence(prop, tier, seed, sel, outs, wall, assumptions, level_text, u
                      "unwind": j.unwind, "bounded": j.bounded, "obligations": len(rs),
                      "discharged": len([r for r in rs if r["status"] == "SUCCESS"]),
                      "status": o["status"], "reason": o.get("reason", ""), "backend": o.get("solver"),
-                     "seconds": round(o.get("time", 0), 1), "note": j.note})
+                     "seconds": round(o.get("time", 0), 1), "note": j.note,
+                     "ignored_dfcc_artefacts": sorted(ign)})
         funcs.update(j.functions)
         if j.bounded:
             bounded.append("%s: %s" % (j.id, j.bounded))
